@@ -5,7 +5,7 @@ For each seed: copy /repo/cassandra, apply the patch to the copy, run ./check <p
 misses) with VERIF_REPO pointing at the copy and the evidence redirected, and record what happened in
 seeded/RESULTS.json (+ lead_verification.status_now / detected_by in the seed's meta.json).  /repo is never touched.
 
-usage: tools/seed_all.py [-j N] [--thorough-on-miss] [--benign] [seed-dir-name ...]
+usage: tools/seed_all.py [-j N] [--thorough-on-miss] [--benign | --neutral] [seed-dir-name ...]
 With --benign the directory is benign/ (behaviour-preserving refactorings): a check that exits non-zero is a FALSE ALARM.
 """
 import concurrent.futures as cf
@@ -19,10 +19,13 @@ import tempfile
 import time
 
 VERIF = os.path.dirname(os.path.dirname(os.path.abspath(__file__)))
-BENIGN = "--benign" in sys.argv          # behaviour-preserving changes (benign/<id>/): every check must stay quiet
+# --benign: behaviour-preserving refactorings (benign/<id>/); --neutral: behaviour changes the property leaves open
+# (neutral/<id>/).  In both modes every check must stay quiet: a non-zero exit is a FALSE ALARM.
+QUIET_DIR = next((a[2:] for a in sys.argv if a in ("--benign", "--neutral")), None)
+BENIGN = QUIET_DIR is not None
 if BENIGN:
-    sys.argv.remove("--benign")
-SEEDED = os.path.join(VERIF, "benign" if BENIGN else "seeded")
+    sys.argv.remove("--" + QUIET_DIR)
+SEEDED = os.path.join(VERIF, QUIET_DIR or "seeded")
 
 
 def run_seed(name, thorough_on_miss):
